@@ -267,6 +267,88 @@ func TestC04(t *testing.T) {
 			}
 			return out
 		})
+		// 2c. beyond strconv (ref/number.go): integer parts of more than 800 significant digits
+		// whose leading digits defeat the fast paths, and exponents of five and six digits
+		// compensated by as many leading or trailing zeros; exact rational rounding decides
+		if e.enumStage("beyond-strconv", "integer parts of N digits (N in 795..805, 900, 1000, 1599..1601, 4000, 12000) built on 6 heads (ties, 2^53+1, max float, least subnormal, plain) x 2 fills x 6 exponents x {plain, .5}; zero runs Z in {9999..10001, 99998..100001, 123455; thorough also 10^6} before or after 3 digit strings with exponent Z+k for 8 offsets k", true) {
+			var lits []string
+			heads := []string{"9007199254740993", "1", "17976931348623158", "4940656458412465", "22250738585072011", "123456789012345678901234567890"}
+			for _, N := range []int{795, 799, 800, 801, 802, 805, 900, 1000, 1599, 1600, 1601, 4000, 12000} {
+				for _, h := range heads {
+					for _, fill := range []string{"0", "5"} {
+						body := h + strings.Repeat(fill, N-len(h))
+						for _, ex := range []string{"", fmt.Sprintf("e-%d", N-16), fmt.Sprintf("e-%d", N), fmt.Sprintf("e%d", 309-N), fmt.Sprintf("e-%d", N+323), fmt.Sprintf("E+%d", 308-N)} {
+							lits = append(lits, body+ex, body+".5"+ex)
+						}
+					}
+				}
+			}
+			zs := []int{9999, 10000, 10001, 99998, 99999, 100000, 100001, 123455}
+			if e.cfg.Thorough() {
+				zs = append(zs, 1000000)
+			}
+			for _, Z := range zs {
+				zeros := strings.Repeat("0", Z)
+				for _, d := range []string{"1", "17976931348623158", "49406564584124654"} {
+					for _, k := range []int{0, 1, 308, 309, 310, -322, -323, -324} {
+						lits = append(lits, fmt.Sprintf("0.%s%se%d", zeros, d, Z+k), fmt.Sprintf("%s%se-%d", d, zeros, Z+len(d)-k))
+					}
+				}
+			}
+			// digit counts that match a six-digit exponent cut to its first five digits
+			for _, Z := range []int{10000, 12345, 99999} {
+				zeros := strings.Repeat("0", Z)
+				for _, d := range []int{0, 6} {
+					for _, h := range []string{"1", "3", "12345", "1234567890123456789", "98765432109876543210"} {
+						lits = append(lits, fmt.Sprintf("%s%se-%d%d", h, zeros, Z, d), fmt.Sprintf("0.%s%se%d%d", zeros, h, Z+1, d), fmt.Sprintf("%s%s.5E-%d%d", h, zeros, Z, d))
+					}
+				}
+			}
+			for i, lit := range lits {
+				if !e.cfg.Mine(i) {
+					continue
+				}
+				forms := []string{lit, "-" + lit, lit + ","}
+				for _, s := range forms {
+					r.Begin("beyond-strconv", []byte(s))
+					if err := core.Catch(func() error { return eval("beyond-strconv", s) }); err != nil {
+						r.Fail(&core.Case{Prop: "C04", Kind: "beyond-strconv", In: []byte(s)}, err)
+						break
+					}
+				}
+				if r.Failed() {
+					break
+				}
+			}
+		}
+		// 2d. the shared number-shape grid: every combination of integer / fraction / exponent
+		// digit counts (values, not only validity)
+		if e.enumStage("numshapes", "number tokens over the shared grid of integer x fraction x exponent digit counts, 4 spelling variants each", true) {
+			idx := 0
+		shapes:
+			for _, li := range numShapeLens {
+				for fi := -1; fi < len(numShapeLens); fi++ {
+					lf := 0
+					if fi >= 0 {
+						lf = numShapeLens[fi]
+					}
+					for _, le := range numShapeExpLens {
+						idx++
+						if !e.cfg.Mine(idx) {
+							continue
+						}
+						for v := 0; v < 4; v++ {
+							lit := string(numShape(nil, li, lf, le, idx+v*6))
+							r.Begin("numshapes", []byte(lit))
+							if err := core.Catch(func() error { return eval("numshapes", lit) }); err != nil {
+								r.Fail(&core.Case{Prop: "C04", Kind: "numshapes", In: []byte(lit)}, err)
+								break shapes
+							}
+						}
+					}
+				}
+			}
+		}
 		// 3. every row of the powers-of-ten table (q = -348..347) and the fallback ranges beyond
 		if e.enumStage("table-rows", "for every decimal exponent q in [-400, 400]: 19-digit and shorter mantissas w with w*10^q nearest to a halfway point, and w-1, w+1", true) {
 			per := e.cfg.Pick(9, 60)
